@@ -1,19 +1,70 @@
-(* Property C19 (linear systems): theorems only.  Every statement is about the executable model
-   LV.Lin.LuModel of src/vnacommon_lu.c / _mldivide.c / _mrdivide.c / _minverse.c (tied to the
-   code by checks/C19.py on every run, the row-scale variant being read from the C text) and about
-   the least-squares specification LV.Lin.LsSpec of _vnacommon_qrsolve / _qr + _qrsolve2.
-   Exact field arithmetic stands for binary64: backward stability in binary64 and numerical rank
-   decisions are NOT proved here (named in the manifest). *)
+(* Property C19 (linear systems): theorems only.
+   LU part: every statement is about the executable model LV.Lin.LuModel of src/vnacommon_lu.c /
+   _mldivide.c / _mrdivide.c / _minverse.c and its partial version LV.Lin.LuPartial.lu_c (what the C
+   code returns when a pivot is exactly zero: 0 or NaN), both tied to the code by checks/C19.py on
+   every run (row-scale variant read from the C text; zero pivots at every column position).
+   Least-squares part: SPECIFICATION LEVEL only.  No model of the Householder code
+   (_vnacommon_qrd / _qr / _qrsolve / _qrsolve2) exists; the theorems are about the normal equations
+   and about the executable oracle LsLu.ls_lu the C routines are compared with numerically.
+   Exact field arithmetic stands for binary64: backward stability in binary64, numerical rank
+   decisions and the behaviour of the order premises under NaN metrics are NOT proved (named in the
+   manifest and in docs/design_C19.md). *)
 Require Import List Arith Bool.
 Require Import QArith Qcanon.
-Require Import LV.Base.CField LV.Base.QcI LV.Lin.MatL LV.Lin.LuModel LV.Lin.LuQI LV.Lin.LsSpec LV.Lin.LuQI2.
-Require Import LV.Lin.LuGen LV.Lin.LuPivot LV.Lin.LuDet3 LV.Lin.LuProofs LV.Lin.LsProofs.
+Require Import LV.Base.CField LV.Base.QcI LV.Lin.MatL LV.Lin.LuModel LV.Lin.LuPartial LV.Lin.LuQI LV.Lin.LsSpec LV.Lin.LsLu LV.Lin.LuQI2.
+Require Import LV.Lin.LuGen LV.Lin.LuPivot LV.Lin.LuDet3 LV.Lin.LuProofs LV.Lin.LuNonsing LV.Lin.LuNonsingQI LV.Lin.LsProofs LV.Lin.LsLuProofs.
 Local Open Scope nat_scope.
 
-(* ---- lu_solves, every n.  If every pivot met is nonzero then A (A \ B) = B, (B / A) A = B,
-   A A^-1 = I, and the determinant returned is (-1)^(row exchanges) * product of the pivots.
-   No hypothesis on the pivot choice (M, ltM, scale_of_max arbitrary). *)
+(* ---- lu_solves, every n, from a hypothesis on the INPUT: if A has a trivial kernel (A v = 0 only
+   for v = 0) then A (A \ B) = B, (B / A) A = B, A A^-1 = I and the returned determinant is nonzero.
+   Premises on the magnitude type M (order laws, instantiated at Qc in c19_lu_outcome_QI below):
+   < irreflexive, transitive, negatively transitive; products of positives positive; x*0 = 0;
+   |0| = 0; |x| > 0 for x <> 0; the row-scale function maps positives to positives; decidable
+   x = 0 on K.  (In binary64 these laws fail for NaN metrics: not covered, see design_C19.) *)
 Theorem c19_lu_solves (K : CField) (M : Type) (nrm2 : K -> M) (mulM : M -> M -> M) (ltM : M -> M -> bool)
+    (zeroM : M) (scale_of_max : M -> M) :
+  (forall x, ltM x x = false) ->
+  (forall x y z, ltM x y = true -> ltM y z = true -> ltM x z = true) ->
+  (forall x y z, ltM x z = true -> ltM x y = false -> ltM y z = true) ->
+  (forall x y, ltM zeroM x = true -> ltM zeroM y = true -> ltM zeroM (mulM x y) = true) ->
+  (forall x, mulM x zeroM = zeroM) ->
+  nrm2 c0 = zeroM ->
+  (forall x : K, x <> c0 -> ltM zeroM (nrm2 x) = true) ->
+  (forall x, ltM zeroM x = true -> ltM zeroM (scale_of_max x) = true) ->
+  (forall x : K, x = c0 \/ x <> c0) ->
+  forall n (a : mat K), wf n n a -> kernel_trivial K a n ->
+  (forall m (b : mat K), wf n m b -> forall i k, i < n -> k < m ->
+      mget K (mmul K n n m a (fst (mldivide K M nrm2 mulM ltM zeroM scale_of_max a b n m))) i k = mget K b i k) /\
+  (forall m (b : mat K), wf m n b -> forall i k, i < m -> k < n ->
+      mget K (mmul K m n n (fst (mrdivide K M nrm2 mulM ltM zeroM scale_of_max b a m n)) a) i k = mget K b i k) /\
+  (forall i k, i < n -> k < n ->
+      mget K (mmul K n n n a (fst (minverse K M nrm2 mulM ltM zeroM scale_of_max a n))) i k
+      = (if Nat.eqb i k then c1 else c0)) /\
+  lu_d K M (lu K M nrm2 mulM ltM zeroM scale_of_max a n) <> c0.
+Proof. exact (lu_solves_nonsingular K M nrm2 mulM ltM zeroM scale_of_max). Qed.
+Print Assumptions c19_lu_solves.
+
+(* the missing link: every pivot met is nonzero  <=>  the input has a trivial kernel *)
+Theorem c19_pivots_nonzero_iff_nonsingular (K : CField) (M : Type) (nrm2 : K -> M) (mulM : M -> M -> M)
+    (ltM : M -> M -> bool) (zeroM : M) (scale_of_max : M -> M) :
+  (forall x, ltM x x = false) ->
+  (forall x y z, ltM x y = true -> ltM y z = true -> ltM x z = true) ->
+  (forall x y z, ltM x z = true -> ltM x y = false -> ltM y z = true) ->
+  (forall x y, ltM zeroM x = true -> ltM zeroM y = true -> ltM zeroM (mulM x y) = true) ->
+  (forall x, mulM x zeroM = zeroM) ->
+  nrm2 c0 = zeroM ->
+  (forall x : K, x <> c0 -> ltM zeroM (nrm2 x) = true) ->
+  (forall x, ltM zeroM x = true -> ltM zeroM (scale_of_max x) = true) ->
+  (forall x : K, x = c0 \/ x <> c0) ->
+  forall (a : mat K) n, wf n n a ->
+  (pivots_nonzero K M nrm2 mulM ltM zeroM scale_of_max a n <-> kernel_trivial K a n).
+Proof. exact (pivots_nonzero_iff_trivial_kernel K M nrm2 mulM ltM zeroM scale_of_max). Qed.
+Print Assumptions c19_pivots_nonzero_iff_nonsingular.
+
+(* the conditional version (kept as a lemma): no hypothesis on the pivot choice at all, but the
+   premise is a property of the OUTPUT of the run (the diagonal of the final array); also gives
+   the determinant as (-1)^(row exchanges) * product of the pivots *)
+Theorem c19_lu_solves_if_pivots_nonzero (K : CField) (M : Type) (nrm2 : K -> M) (mulM : M -> M -> M) (ltM : M -> M -> bool)
     (zeroM : M) (scale_of_max : M -> M) (n : nat) (a : mat K) :
   wf n n a -> pivots_nonzero K M nrm2 mulM ltM zeroM scale_of_max a n ->
   (forall m (b : mat K), wf n m b -> forall i k, i < n -> k < m ->
@@ -27,15 +78,17 @@ Theorem c19_lu_solves (K : CField) (M : Type) (nrm2 : K -> M) (mulM : M -> M -> 
   = cmul (pm1 K (swap_count K M nrm2 mulM ltM zeroM scale_of_max a n n))
          (prodf K n (fun j => mget K (lu_a K M (lu K M nrm2 mulM ltM zeroM scale_of_max a n)) j j)).
 Proof. exact (lu_solves K M nrm2 mulM ltM zeroM scale_of_max n a). Qed.
-Print Assumptions c19_lu_solves.
+Print Assumptions c19_lu_solves_if_pivots_nonzero.
 
-(* the three solvers return exactly that determinant *)
-Theorem c19_solvers_return_lu_d (K : CField) (M : Type) nrm2 mulM ltM zeroM scale_of_max (a b : mat K) n m :
-  snd (mldivide K M nrm2 mulM ltM zeroM scale_of_max a b n m) = lu_d K M (lu K M nrm2 mulM ltM zeroM scale_of_max a n) /\
-  snd (mrdivide K M nrm2 mulM ltM zeroM scale_of_max b a m n) = lu_d K M (lu K M nrm2 mulM ltM zeroM scale_of_max a n) /\
-  snd (minverse K M nrm2 mulM ltM zeroM scale_of_max a n) = lu_d K M (lu K M nrm2 mulM ltM zeroM scale_of_max a n).
-Proof. exact (solvers_return_lu_d K M nrm2 mulM ltM zeroM scale_of_max a b n m). Qed.
-Print Assumptions c19_solvers_return_lu_d.
+(* the solution of a nonsingular system is unique: in exact arithmetic the result does not depend
+   on the order or the scaling of the equations (the pivot SEQUENCE under row permutation is not
+   proved invariant; the bitwise invariance of the real code is tested by checks/C19.py) *)
+Theorem c19_nonsingular_solution_unique (K : CField) (a : mat K) n (x y : nat -> K) :
+  kernel_trivial K a n ->
+  (forall i, i < n -> sumf n (fun k => cmul (mget K a i k) (x k)) = sumf n (fun k => cmul (mget K a i k) (y k))) ->
+  forall k, k < n -> x k = y k.
+Proof. exact (nonsingular_solution_unique K a n x y). Qed.
+Print Assumptions c19_nonsingular_solution_unique.
 
 (* P A = L U entrywise (Crout invariant at the end of the run), every n *)
 Theorem c19_lu_PA_eq_LU (K : CField) (M : Type) nrm2 mulM ltM zeroM scale_of_max (a : mat K) n :
@@ -105,16 +158,171 @@ Theorem c19_pivot_nonzero_if_any_s (K : CField) (M : Type) (nrm2 : K -> M) (mulM
 Proof. exact (pivot_nonzero_if_any_s K M nrm2 mulM ltM zeroM). Qed.
 Print Assumptions c19_pivot_nonzero_if_any_s.
 
-(* ---- lu_singular_flagged, every n: a matrix with a nonzero kernel vector meets a zero pivot and
-   the determinant returned is 0 (what the call sites test).  K needs a decidable zero test. *)
-Theorem c19_lu_singular_flagged (K : CField) (M : Type) nrm2 mulM ltM zeroM scale_of_max :
+(* ---- singular inputs, every n: what _vnacommon_lu returns (model LuPartial.lu_c: LuModel.lu_column
+   column by column, stopping with LuNonFinite j at the first column j < n-1 whose pivot is exactly
+   zero, where binary64 computes 1/0 = inf and 0 * inf = NaN).  Exactly one of
+     (1) A has a trivial kernel: finite run = the total model, all pivots nonzero, determinant <> 0;
+     (2) A singular, first zero pivot in the LAST column: finite run, determinant exactly 0;
+     (3) A singular, first zero pivot in a column j < n-1: non-finite from there on, NaN returned.
+   "zero pivot met <=> A singular" is (2)/(3) vs (1).  Same premises on M as c19_lu_solves; isz is the
+   zero test of K. *)
+Theorem c19_lu_zero_pivot_outcome (K : CField) (M : Type) (nrm2 : K -> M) (mulM : M -> M -> M)
+    (ltM : M -> M -> bool) (zeroM : M) (scale_of_max : M -> M) (isz : K -> bool) :
+  (forall x : K, isz x = true <-> x = c0) ->
+  (forall x, ltM x x = false) ->
+  (forall x y z, ltM x y = true -> ltM y z = true -> ltM x z = true) ->
+  (forall x y z, ltM x z = true -> ltM x y = false -> ltM y z = true) ->
+  (forall x y, ltM zeroM x = true -> ltM zeroM y = true -> ltM zeroM (mulM x y) = true) ->
+  (forall x, mulM x zeroM = zeroM) ->
+  nrm2 c0 = zeroM ->
+  (forall x : K, x <> c0 -> ltM zeroM (nrm2 x) = true) ->
+  (forall x, ltM zeroM x = true -> ltM zeroM (scale_of_max x) = true) ->
+  forall (a : mat K) n, wf n n a ->
+  (kernel_trivial K a n /\
+   lu_c K M nrm2 mulM ltM zeroM scale_of_max isz a n = LuFinite K M (lu K M nrm2 mulM ltM zeroM scale_of_max a n) /\
+   pivots_nonzero K M nrm2 mulM ltM zeroM scale_of_max a n /\
+   lu_d K M (lu K M nrm2 mulM ltM zeroM scale_of_max a n) <> c0) \/
+  (singular K a n /\
+   lu_c K M nrm2 mulM ltM zeroM scale_of_max isz a n = LuFinite K M (lu K M nrm2 mulM ltM zeroM scale_of_max a n) /\
+   0 < n /\
+   (forall k, k < n - 1 -> pivot_at K M nrm2 mulM ltM zeroM scale_of_max a n k <> c0) /\
+   pivot_at K M nrm2 mulM ltM zeroM scale_of_max a n (n - 1) = c0 /\
+   lu_d K M (lu K M nrm2 mulM ltM zeroM scale_of_max a n) = c0) \/
+  (singular K a n /\ exists j, j < n - 1 /\
+   lu_c K M nrm2 mulM ltM zeroM scale_of_max isz a n
+     = LuNonFinite K M j (LuGenB.lu_upto K M nrm2 mulM ltM zeroM scale_of_max a n j) /\
+   (forall k, k < j -> pivot_at K M nrm2 mulM ltM zeroM scale_of_max a n k <> c0) /\
+   pivot_at K M nrm2 mulM ltM zeroM scale_of_max a n j = c0).
+Proof. exact (lu_c_outcome K M nrm2 mulM ltM zeroM scale_of_max isz). Qed.
+Print Assumptions c19_lu_zero_pivot_outcome.
+
+(* the link between the partial and the total model: a finite outcome IS the state computed by lu *)
+Theorem c19_lu_c_finite_is_lu (K : CField) (M : Type) nrm2 mulM ltM zeroM scale_of_max (isz : K -> bool) :
+  (forall x : K, isz x = true <-> x = c0) ->
+  forall (a : mat K) n st, wf n n a ->
+  lu_c K M nrm2 mulM ltM zeroM scale_of_max isz a n = LuFinite K M st ->
+  st = lu K M nrm2 mulM ltM zeroM scale_of_max a n.
+Proof. exact (lu_c_finite_is_lu K M nrm2 mulM ltM zeroM scale_of_max isz). Qed.
+Print Assumptions c19_lu_c_finite_is_lu.
+
+(* the test applied at 6 of the 11 determinant call sites, `d == 0.0 || !isnormal(cabs(d))`, rejects
+   exactly the singular matrices *)
+Theorem c19_singular_iff_rejected (K : CField) (M : Type) (nrm2 : K -> M) (mulM : M -> M -> M)
+    (ltM : M -> M -> bool) (zeroM : M) (scale_of_max : M -> M) (isz : K -> bool) :
+  (forall x : K, isz x = true <-> x = c0) ->
+  (forall x, ltM x x = false) ->
+  (forall x y z, ltM x y = true -> ltM y z = true -> ltM x z = true) ->
+  (forall x y z, ltM x z = true -> ltM x y = false -> ltM y z = true) ->
+  (forall x y, ltM zeroM x = true -> ltM zeroM y = true -> ltM zeroM (mulM x y) = true) ->
+  (forall x, mulM x zeroM = zeroM) ->
+  nrm2 c0 = zeroM ->
+  (forall x : K, x <> c0 -> ltM zeroM (nrm2 x) = true) ->
+  (forall x, ltM zeroM x = true -> ltM zeroM (scale_of_max x) = true) ->
+  forall (a : mat K) n, wf n n a ->
+  (site_rejects_full K isz (lu_c_det K M (lu_c K M nrm2 mulM ltM zeroM scale_of_max isz a n)) = true
+   <-> singular K a n).
+Proof. exact (lu_c_rejects_iff_singular K M nrm2 mulM ltM zeroM scale_of_max isz). Qed.
+Print Assumptions c19_singular_iff_rejected.
+
+(* the bare test `d == 0.0` (the five V-matrix call sites of vnacal_new_solve_update_v_matrices.c)
+   rejects a singular matrix only when no pivot before the last column is zero *)
+Theorem c19_eq0_test_partial (K : CField) (M : Type) (nrm2 : K -> M) (mulM : M -> M -> M)
+    (ltM : M -> M -> bool) (zeroM : M) (scale_of_max : M -> M) (isz : K -> bool) :
+  (forall x : K, isz x = true <-> x = c0) ->
+  (forall x, ltM x x = false) ->
+  (forall x y z, ltM x y = true -> ltM y z = true -> ltM x z = true) ->
+  (forall x y z, ltM x z = true -> ltM x y = false -> ltM y z = true) ->
+  (forall x y, ltM zeroM x = true -> ltM zeroM y = true -> ltM zeroM (mulM x y) = true) ->
+  (forall x, mulM x zeroM = zeroM) ->
+  nrm2 c0 = zeroM ->
+  (forall x : K, x <> c0 -> ltM zeroM (nrm2 x) = true) ->
+  (forall x, ltM zeroM x = true -> ltM zeroM (scale_of_max x) = true) ->
+  forall (a : mat K) n, wf n n a ->
+  (site_rejects_eq0 K isz (lu_c_det K M (lu_c K M nrm2 mulM ltM zeroM scale_of_max isz a n)) = true
+   <-> singular K a n /\ forall k, k < n - 1 -> pivot_at K M nrm2 mulM ltM zeroM scale_of_max a n k <> c0).
+Proof. exact (lu_c_eq0_test K M nrm2 mulM ltM zeroM scale_of_max isz). Qed.
+Print Assumptions c19_eq0_test_partial.
+
+(* ... and "a singular matrix is always caught by == 0.0" is false of the code as it is (known
+   finding DL2): [[0,1],[0,2]] over Q[i] *)
+Theorem c19_eq0_test_accepts_singular_refuted :
+  exists (a : mat QIF) n, wf n n a /\ singular QIF a n /\
+    site_rejects_eq0 QIF qi_isz (lu_c_det QIF Qc (q2_lu_c_recip a n)) = false.
+Proof. exact eq0_test_accepts_singular_refuted. Qed.
+Print Assumptions c19_eq0_test_accepts_singular_refuted.
+
+(* the three solvers as the C code behaves (None = the output array holds inf / NaN) *)
+Theorem c19_solvers_as_coded_nonsingular (K : CField) (M : Type) (nrm2 : K -> M) (mulM : M -> M -> M)
+    (ltM : M -> M -> bool) (zeroM : M) (scale_of_max : M -> M) (isz : K -> bool) :
+  (forall x : K, isz x = true <-> x = c0) ->
+  (forall x, ltM x x = false) ->
+  (forall x y z, ltM x y = true -> ltM y z = true -> ltM x z = true) ->
+  (forall x y z, ltM x z = true -> ltM x y = false -> ltM y z = true) ->
+  (forall x y, ltM zeroM x = true -> ltM zeroM y = true -> ltM zeroM (mulM x y) = true) ->
+  (forall x, mulM x zeroM = zeroM) ->
+  nrm2 c0 = zeroM ->
+  (forall x : K, x <> c0 -> ltM zeroM (nrm2 x) = true) ->
+  (forall x, ltM zeroM x = true -> ltM zeroM (scale_of_max x) = true) ->
+  forall n (a : mat K), wf n n a -> kernel_trivial K a n ->
+  (forall m (b : mat K), wf n m b -> exists x d,
+      mldivide_c K M nrm2 mulM ltM zeroM scale_of_max isz a b n m = (Some x, DetFin d) /\ d <> c0 /\
+      forall i k, i < n -> k < m -> mget K (mmul K n n m a x) i k = mget K b i k) /\
+  (forall m (b : mat K), wf m n b -> exists x d,
+      mrdivide_c K M nrm2 mulM ltM zeroM scale_of_max isz b a m n = (Some x, DetFin d) /\ d <> c0 /\
+      forall i k, i < m -> k < n -> mget K (mmul K m n n x a) i k = mget K b i k) /\
+  (exists x d, minverse_c K M nrm2 mulM ltM zeroM scale_of_max isz a n = (Some x, DetFin d) /\ d <> c0 /\
+      forall i k, i < n -> k < n -> mget K (mmul K n n n a x) i k = (if Nat.eqb i k then c1 else c0)).
+Proof. exact (solvers_c_nonsingular K M nrm2 mulM ltM zeroM scale_of_max isz). Qed.
+Print Assumptions c19_solvers_as_coded_nonsingular.
+
+Theorem c19_solvers_as_coded_singular (K : CField) (M : Type) (nrm2 : K -> M) (mulM : M -> M -> M)
+    (ltM : M -> M -> bool) (zeroM : M) (scale_of_max : M -> M) (isz : K -> bool) :
+  (forall x : K, isz x = true <-> x = c0) ->
+  (forall x, ltM x x = false) ->
+  (forall x y z, ltM x y = true -> ltM y z = true -> ltM x z = true) ->
+  (forall x y z, ltM x z = true -> ltM x y = false -> ltM y z = true) ->
+  (forall x y, ltM zeroM x = true -> ltM zeroM y = true -> ltM zeroM (mulM x y) = true) ->
+  (forall x, mulM x zeroM = zeroM) ->
+  nrm2 c0 = zeroM ->
+  (forall x : K, x <> c0 -> ltM zeroM (nrm2 x) = true) ->
+  (forall x, ltM zeroM x = true -> ltM zeroM (scale_of_max x) = true) ->
+  forall n (a : mat K), wf n n a -> singular K a n ->
+  forall (b : mat K) m,
+  fst (mldivide_c K M nrm2 mulM ltM zeroM scale_of_max isz a b n m) = None /\
+  fst (mrdivide_c K M nrm2 mulM ltM zeroM scale_of_max isz b a m n) = None /\
+  fst (minverse_c K M nrm2 mulM ltM zeroM scale_of_max isz a n) = None /\
+  site_rejects_full K isz (snd (mldivide_c K M nrm2 mulM ltM zeroM scale_of_max isz a b n m)) = true /\
+  site_rejects_full K isz (snd (mrdivide_c K M nrm2 mulM ltM zeroM scale_of_max isz b a m n)) = true /\
+  site_rejects_full K isz (snd (minverse_c K M nrm2 mulM ltM zeroM scale_of_max isz a n)) = true.
+Proof. exact (solvers_c_singular K M nrm2 mulM ltM zeroM scale_of_max isz). Qed.
+Print Assumptions c19_solvers_as_coded_singular.
+
+(* the instance the correspondence runs (Q[i], Qc, reciprocal row scale): no premise on M left *)
+Theorem c19_lu_outcome_QI (a : mat QIF) n : wf n n a ->
+  (kernel_trivial QIF a n /\ q2_lu_c_recip a n = LuFinite QIF Qc (q2_lu_recip a n) /\
+   pivots_nonzero QIF Qc qi_nrm Qcmult Qc_ltb 0%Qc scale_recip a n /\ lu_d QIF Qc (q2_lu_recip a n) <> c0) \/
+  (singular QIF a n /\ q2_lu_c_recip a n = LuFinite QIF Qc (q2_lu_recip a n) /\ 0 < n /\
+   (forall k, k < n - 1 -> pivot_at QIF Qc qi_nrm Qcmult Qc_ltb 0%Qc scale_recip a n k <> c0) /\
+   pivot_at QIF Qc qi_nrm Qcmult Qc_ltb 0%Qc scale_recip a n (n - 1) = c0 /\
+   lu_d QIF Qc (q2_lu_recip a n) = c0) \/
+  (singular QIF a n /\ exists j, j < n - 1 /\
+   q2_lu_c_recip a n = LuNonFinite QIF Qc j (LuGenB.lu_upto QIF Qc qi_nrm Qcmult Qc_ltb 0%Qc scale_recip a n j) /\
+   (forall k, k < j -> pivot_at QIF Qc qi_nrm Qcmult Qc_ltb 0%Qc scale_recip a n k <> c0) /\
+   pivot_at QIF Qc qi_nrm Qcmult Qc_ltb 0%Qc scale_recip a n j = c0).
+Proof. exact (q_lu_c_outcome a n). Qed.
+Print Assumptions c19_lu_outcome_QI.
+
+(* the exact-field total model on a singular input: its final array has a zero on the diagonal and
+   its determinant accumulator is 0.  NOT the value the C code returns (see c19_lu_zero_pivot_outcome):
+   after a zero pivot in a column j < n-1 the total model goes on with 1/0 = 0. *)
+Theorem c19_lu_singular_zero_pivot_exact_field (K : CField) (M : Type) nrm2 mulM ltM zeroM scale_of_max :
   (forall x : K, x = c0 \/ x <> c0) ->
   forall (a : mat K) n, wf n n a ->
   (exists v, in_kernel K a n v /\ exists k, k < n /\ v k <> c0) ->
   (exists j, j < n /\ mget K (lu_a K M (lu K M nrm2 mulM ltM zeroM scale_of_max a n)) j j = c0) /\
   lu_d K M (lu K M nrm2 mulM ltM zeroM scale_of_max a n) = c0.
-Proof. exact (lu_singular_flagged K M nrm2 mulM ltM zeroM scale_of_max). Qed.
-Print Assumptions c19_lu_singular_flagged.
+Proof. exact (lu_singular_zero_pivot_exact_field K M nrm2 mulM ltM zeroM scale_of_max). Qed.
+Print Assumptions c19_lu_singular_zero_pivot_exact_field.
 
 Theorem c19_lu_kernel_trivial (K : CField) (M : Type) nrm2 mulM ltM zeroM scale_of_max (a : mat K) n :
   wf n n a -> pivots_nonzero K M nrm2 mulM ltM zeroM scale_of_max a n ->
@@ -163,24 +371,73 @@ Theorem c19_pivot_scale_invariant_refuted_for_max_metric :
 Proof. exact pivot_scale_invariant_refuted. Qed.
 Print Assumptions c19_pivot_scale_invariant_refuted_for_max_metric.
 
-(* ---- least squares: the normal-equation specification *)
-Theorem c19_ls_solve_normal m n o (a b x : mat QIF) :
-  q2_ls_solve m n o a b = Some x -> normal_eq m n o a b x.
-Proof. exact (ls_solve_normal m n o a b x). Qed.
-Print Assumptions c19_ls_solve_normal.
+(* ---- least squares, SPECIFICATION LEVEL (no model of the Householder code exists).
+   normal_eq m n o a b x : A^H A x = A^H b entrywise.  q2_ls_lu: the executable oracle the C routines
+   are compared with (normal equations solved on the LU model). *)
 
-Theorem c19_ls_minimises m n o (a b x : mat QIF) : normal_eq m n o a b x ->
+(* a solution of the normal equations minimises |A y - b|_F^2 over all y *)
+Theorem c19_ls_minimises_spec_level m n o (a b x : mat QIF) : normal_eq m n o a b x ->
   forall y : mat QIF, (res2 m n o a x b <= res2 m n o a y b)%Qc.
 Proof. exact (ls_minimises m n o a b x). Qed.
-Print Assumptions c19_ls_minimises.
+Print Assumptions c19_ls_minimises_spec_level.
 
-Theorem c19_ls_consistent_exact m n o (a b x : mat QIF) : normal_eq m n o a b x ->
+(* consistent data: it solves A x = b exactly *)
+Theorem c19_ls_consistent_exact_spec_level m n o (a b x : mat QIF) : normal_eq m n o a b x ->
   (exists x0 : mat QIF, forall i k, i < m -> k < o -> mget QIF (mmul QIF m n o a x0) i k = mget QIF b i k) ->
   forall i k, i < m -> k < o -> mget QIF (mmul QIF m n o a x) i k = mget QIF b i k.
 Proof. exact (ls_consistent_exact m n o a b x). Qed.
-Print Assumptions c19_ls_consistent_exact.
+Print Assumptions c19_ls_consistent_exact_spec_level.
 
-Theorem c19_ls_solve_minimises m n o (a b x : mat QIF) : q2_ls_solve m n o a b = Some x ->
-  forall y : mat QIF, (res2 m n o a x b <= res2 m n o a y b)%Qc.
-Proof. exact (ls_solve_minimises m n o a b x). Qed.
-Print Assumptions c19_ls_solve_minimises.
+(* full column rank: the minimiser is unique *)
+Theorem c19_ls_unique_spec_level m n o (a b x y : mat QIF) : full_col_rank m n a ->
+  normal_eq m n o a b x -> normal_eq m n o a b y ->
+  forall t k, t < n -> k < o -> mget QIF x t k = mget QIF y t k.
+Proof. exact (ls_unique m n o a b x y). Qed.
+Print Assumptions c19_ls_unique_spec_level.
+
+(* the order of the equations does not matter: permuting the rows of A and b together leaves the
+   normal equations (hence the set of minimisers) unchanged *)
+Theorem c19_ls_row_order_spec_level m n o (a b x : mat QIF) (p : list nat) :
+  Permutation.Permutation p (seq 0 m) ->
+  (normal_eq m n o (perm_rows_f p a m n) (perm_rows_f p b m o) x <-> normal_eq m n o a b x).
+Proof. exact (normal_eq_row_perm m n o a b x p). Qed.
+Print Assumptions c19_ls_row_order_spec_level.
+
+(* the oracle: sound ... *)
+Theorem c19_ls_oracle_sound m n o (a b x : mat QIF) :
+  q2_ls_lu m n o a b = Some x ->
+  normal_eq m n o a b x /\ forall y : mat QIF, (res2 m n o a x b <= res2 m n o a y b)%Qc.
+Proof. exact (ls_lu_sound_minimises m n o a b x). Qed.
+Print Assumptions c19_ls_oracle_sound.
+
+(* ... and complete: it answers exactly when A has full column rank (so `fun _ => None` does not
+   satisfy these theorems), and None comes with a nonzero kernel vector of A *)
+Theorem c19_ls_oracle_complete m n o (a b : mat QIF) : full_col_rank m n a ->
+  exists x, q2_ls_lu m n o a b = Some x /\ normal_eq m n o a b x.
+Proof. exact (ls_lu_complete m n o a b). Qed.
+Print Assumptions c19_ls_oracle_complete.
+
+Theorem c19_ls_oracle_answers_iff_full_rank m n o (a b : mat QIF) :
+  (exists x, q2_ls_lu m n o a b = Some x) <-> full_col_rank m n a.
+Proof. exact (ls_lu_some_iff_full_rank m n o a b). Qed.
+Print Assumptions c19_ls_oracle_answers_iff_full_rank.
+
+Theorem c19_ls_oracle_none_rank_deficient m n o (a b : mat QIF) : q2_ls_lu m n o a b = None ->
+  exists v : nat -> QIF,
+    (forall i, i < m -> sumf n (fun k => cmul (mget QIF a i k) (v k)) = c0) /\ exists k, k < n /\ v k <> c0.
+Proof. exact (ls_lu_none m n o a b). Qed.
+Print Assumptions c19_ls_oracle_none_rank_deficient.
+
+(* the older oracle LsSpec.ls_solve (Gauss-Jordan, then an a-posteriori check of the normal equations:
+   sound BY CONSTRUCTION, no completeness theorem) agrees with q2_ls_lu whenever both answer; it is
+   still used by the C01 development and cross-checked against q2_ls_lu by checks/C19.py *)
+Theorem c19_ls_gj_oracle_sound_by_construction m n o (a b x : mat QIF) :
+  q2_ls_solve m n o a b = Some x -> normal_eq m n o a b x.
+Proof. exact (ls_solve_normal m n o a b x). Qed.
+Print Assumptions c19_ls_gj_oracle_sound_by_construction.
+
+Theorem c19_ls_oracles_agree m n o (a b x y : mat QIF) :
+  q2_ls_lu m n o a b = Some x -> q2_ls_solve m n o a b = Some y ->
+  forall t k, t < n -> k < o -> mget QIF x t k = mget QIF y t k.
+Proof. exact (ls_lu_agrees_with_ls_solve m n o a b x y). Qed.
+Print Assumptions c19_ls_oracles_agree.
